@@ -211,7 +211,13 @@ struct Runner {
             long v = atol(o.substr(1).c_str());
             X x(v);
             api("ful " + std::to_string(v), [&] {
-                objs->fulfillAllPromises(x);
+                if ((v & 1) != 0) {
+                    // unusual but legal argument category: an rvalue (binds to const X& today; an X&& overload, if a
+                    // tree under test has one, must still deliver the SAME value to every pending future)
+                    objs->fulfillAllPromises(std::move(x));
+                } else {
+                    objs->fulfillAllPromises(x);
+                }
                 return std::string("-");
             });
         } else if (c0 == 'r' || c0 == 'c' || c0 == 'f') {
